@@ -95,4 +95,23 @@ def refreshTick {Doc : Type} (f : Facts) (hour fiveMin : Int) (s : RState Doc) (
     | some d => ({ doc := d, expires := r.1 + hour }, r.2.2.1, r.2.2.2)
     | none => ({ s with expires := r.1 + fiveMin }, r.2.2.1, r.2.2.2)   -- a failed refresh keeps the endpoints
 
+
+/-! ### what counts as provider metadata (main.go `fetchMetadata`)
+
+An answer of the discovery endpoint as the HTTP client sees it.  A 200 answer that decodes is provider metadata only when every
+required member is a non-empty string; anything else is a failed attempt like a refused connection. -/
+
+inductive Answer (Doc : Type)
+  | noAnswer (dur : Int)                 -- refused connection, time-out
+  | notMetadata (dur : Int)              -- failing status, or a body that does not decode into the metadata structure
+  | json (doc : Doc) (dur : Int)         -- 200 and decodes
+
+/-- every required member is among the members the document carries non-empty -/
+def complete (required present : List String) : Bool := required.all (fun m => present.contains m)
+
+def classify {Doc : Type} (required : List String) (present : Doc → List String) : Answer Doc → Outcome Doc
+  | .noAnswer dur => .fail dur
+  | .notMetadata dur => .fail dur
+  | .json doc dur => if complete required (present doc) then .ok doc dur else .fail dur
+
 end Oidc.Discovery
